@@ -12,9 +12,9 @@ RULE = ("kinds: jtest_linear (quadratic H: exact step matrix M from basis vector
         "distinct by (kind, method, hamiltonian, layout, route, sign, seed)")
 ASSUMPTIONS = ["finite-difference J-test: delta=1e-5 in longdouble, threshold 1e-8; exact linear J-test threshold 1e4*eps*cond (splitting) / 1e3*solver tolerance (implicit)"]
 FLOORS = {"quick": {"jtest_linear": 24, "jtest_fd": 24, "reverse_probes": 24, "energy_runs": 6, "mask_probes": 36, "controls_fired": 3, "reuse_probes": 20,
-                    "reuse_nearby_state_probes": 40, "hard_steps_accepted": 10, "hard_stage_residual_checks": 20, "hard_steps_with_a_failed_stage_iteration_under_user_fn": 4},
+                    "reuse_nearby_state_probes": 40, "hard_steps_accepted": 10, "hard_stage_residual_checks": 20, "hard_steps_with_a_failed_stage_iteration_under_user_fn": 4, "reverse_probes_time_dependent": 10},
           "thorough": {"jtest_linear": 60, "jtest_fd": 60, "reverse_probes": 60, "energy_runs": 36, "mask_probes": 240, "controls_fired": 20, "reuse_probes": 150,
-                       "reuse_nearby_state_probes": 300, "hard_steps_accepted": 60, "hard_stage_residual_checks": 100, "hard_steps_with_a_failed_stage_iteration_under_user_fn": 20}}
+                       "reuse_nearby_state_probes": 300, "hard_steps_accepted": 60, "hard_stage_residual_checks": 100, "hard_steps_with_a_failed_stage_iteration_under_user_fn": 20, "reverse_probes_time_dependent": 40}}
 CASE_TIMEOUT = 1200
 SPLIT = ["SymplecticEulerSolver", "ABAs5o6HSolver", "BABs9o7HSolver"]
 LAYOUTS = ["qp", "pq", "interleaved"]
@@ -39,6 +39,10 @@ def gen_cases(tier, seed):
                 cases.append(dict(kind="jtest_linear", method=name, ham=str(rng.choice(["harmonic", "coupled_quadratic"])), h=h, pseed=int(rng.integers(1 << 30)), cost=2 if M[name]["explicit"] else 10))
                 cases.append(dict(kind="jtest_fd", method=name, ham=str(rng.choice(["pendulum", "duffing", "henon_heiles", "quartic_chain"])), h=h, pseed=int(rng.integers(1 << 30)), cost=4 if M[name]["explicit"] else 60))
                 cases.append(dict(kind="reverse", method=name, ham=str(rng.choice(["pendulum", "duffing", "henon_heiles", "quartic_chain", "coupled_quadratic"])), h=h, pseed=int(rng.integers(1 << 30)), cost=2 if M[name]["explicit"] else 10))
+        # separable Hamiltonians with an explicitly time-dependent potential (driven pendulum / Duffing / chain): H = T(p) + V(q) - q.F(t)
+        for r in range(2 if tier == "quick" else 8):
+            cases.append(dict(kind="reverse_driven", method=name, ham=str(rng.choice(["pendulum", "duffing", "quartic_chain", "coupled_quadratic"])),
+                              h=float(rng.choice([-1, 1])) * float(rng.uniform(0.05, 0.5)), pseed=int(rng.integers(1 << 30)), cost=2 if M[name]["explicit"] else 10))
         for r in range(1 if tier == "quick" else 6):
             cases.append(dict(kind="energy", method=name, ham=str(rng.choice(["pendulum", "duffing", "henon_heiles"])), h=float(rng.choice([-1, 1])) * float(rng.uniform(0.02, 0.08)),
                               pseed=int(rng.integers(1 << 30)), cost=40 if M[name]["explicit"] else 300))
@@ -174,6 +178,35 @@ def run_case(spec):
             rec.sample["return_error"] = err
             if err > unit:
                 rec.violate("time_reversibility", "step_h_then_minus_h_does_not_return", feats, err=err, unit=unit)
+        elif kind == "reverse_driven":
+            import desolver as de
+            dt_ = np.dtype("float64")
+            amp, om, ph = rng.uniform(0.3, 1.0, ham.nd), rng.uniform(1.0, 4.0, ham.nd), rng.uniform(0, 6.28, ham.nd)
+
+            def rhs_t(t, yy, **kw):
+                out = np.array(rhs(t, yy), copy=True)
+                out[ip] = out[ip] + (amp * np.cos(om * t + ph)).astype(out.dtype)
+                return out
+            tstart = float(rng.uniform(-2, 2))
+
+            def phi_t(tt, yy, hh):
+                kw = {} if info["explicit"] else dict(rtol=1e-12, atol=1e-12)
+                intg = info["cls"]((n,), dtype=dt_, **kw)
+                util.passthrough_adaptation(intg)
+                _, (dT, dY) = intg(de.DiffRHS(rhs_t), np.asarray(tt, dtype=dt_), np.asarray(yy, dtype=dt_), {}, np.asarray(hh, dtype=dt_))
+                if abs(float(dT) - float(hh)) > 1e-12 * abs(hh):
+                    raise RuntimeError("step shortened")
+                return float(tt) + float(dT), np.asarray(yy, dtype=dt_) + dY
+            t1, y1 = phi_t(tstart, y, h)
+            t2, y2 = phi_t(t1, y1, -h)
+            err = float(np.max(np.abs(y2 - y)))
+            unit = 30 * 2.3e-16 * info["stages"] * (1 + float(np.max(np.abs(y1)))) if info["explicit"] else 30 * 1e-12 * (1 + float(np.max(np.abs(y1))))
+            rec.bump("reverse_probes_time_dependent")
+            rec.nontrivial = True
+            rec.worst("reverse_time_dependent_error_over_unit", err / unit)
+            rec.sample["return_error"] = err
+            if err > unit:
+                rec.violate("time_reversibility", "step_h_then_minus_h_does_not_return_on_a_time_dependent_hamiltonian", feats, err=err, unit=unit, t=tstart)
         elif kind == "hard_step":
             return _hard_step(spec, info, ham, rhs, y, h, rec, feats, J, n)
         elif kind == "reuse":
